@@ -11,7 +11,9 @@ CLAIM = dict(
           "structural comparison — same dimension, same shape, all elements equal / all |a-b| < eps; empty optional = empty "
           "optional, empty <> present; eithers alternative by alternative (with the caller's eps); tuples component by component — "
           "or the pairing is rejected at compile time; utils::apply_isequal / apply_isclose (the entry of the testing macros) agree "
-          "with them, two empty optionals included; integer elements of different width compare by value (a comparison in a "
+          "with them, two empty optionals included; floating elements are finite values, infinities or NaN and closeness is the "
+          "IEEE |a-b| < eps: a pair with a NaN or infinite member is never close (documented default, NaN/inf handling macros "
+          "off), symmetric always, reflexive on finite elements; integer elements of different width compare by value (a comparison in a "
           "type where both values are representable is exact — proved; the code uses the wider type); the elements compared are the LOGICAL ones (by multi-index through apply_at): "
           "for two array objects (layout, shape, buffer) the answer depends only on the shapes and the logical element lists, "
           "whatever the two memory layouts (row-/column-major); both are reflexive, symmetric, return false on different length / "
@@ -30,7 +32,9 @@ RULE = ("all ordered pairs of shapes dim 1..3 extents 1..3 (39x39) with iota dat
         "view / reshape-view / fixed nested std::array kinds rotating); every shape with one element perturbed at every position "
         "(+-1, +-eps); every shape of dim >= 2 in 7 ordered pairings of row-major / column-major owners and views (equal, one "
         "position perturbed at every position, and the partner whose column-major buffer equals the other one's row-major buffer); "
-        "maybe / either / tuple forms with random mixed layouts; index arrays (vector<int>, vector<size_t>, std::array, tuple, ct tuple) in every ordered kind pairing with "
+        "maybe / either / tuple forms with random mixed layouts; isclose with NaN, +-inf, -0.0, a denormal, +-DBL_MAX, +-FLT_MAX at every "
+        "position of every shape of dim <= 2 (and sampled dim 3) in either operand or both, double and float arrays, all scalar pairs, "
+        "and through maybe / either / tuple / apply forms; index arrays (vector<int>, vector<size_t>, std::array, tuple, ct tuple) in every ordered kind pairing with "
         "equal / prefix / longer / perturbed contents through utils::isequal and utils::detail::isequal; index array vs 1-d/2-d "
         "ndarray; maybe x maybe, maybe x plain; either x either, either x plain, either x scalar; tuples of arrays, of "
         "maybe+scalar, maybe of tuple; both argument orders. non-trivial = some array operand of dim >= 2; distinct = distinct lines")
@@ -39,7 +43,8 @@ THEOREM_STATUS = {
                "C18_isequal_symmetric", "C18_isequal_different_shape_is_false", "C18_isequal_different_length_is_false",
                "C18_isequal_maybe_either_tuple", "C18_isclose_is_structural_closeness", "C18_isclose_never_aborts_or_reads_outside",
                "C18_isclose_reflexive_symmetric", "C18_isclose_different_shape_is_false", "C18_isclose_same_shape",
-               "C18_reference_symmetric", "C18_layout_independent", "C18_integer_comparison_exact_when_representable",
+               "C18_reference_symmetric", "C18_layout_independent", "C18_isclose_nonfinite_elements",
+               "C18_integer_comparison_exact_when_representable",
                "C18_apply_maybe_arm"],
     "partial": [],
     "refuted": ["C18_isequal_mixed_signedness_refuted"]}
@@ -53,8 +58,9 @@ ASSUMPTIONS = ["integer elements are mathematical integers in the model (= a com
                "tuples inside an either are outside the domain; the header marks them TODO / unsupported)",
                "pair domain: no either anywhere, or no tuple-of-integers container anywhere (detail::same_concept never matches a "
                "tuple of integers against an either alternative)",
-               "isclose values and eps are integers on a common scale (wire scale 4: exact binary fractions); NaN / inf handling "
-               "(off by default) is not modelled",
+               "isclose elements are finite values on a common scale with eps (wire scale 4: exact binary fractions), +-infinity or "
+               "NaN (reserved wire codes; -0.0 and a denormal are the value 0 on that grid, +-DBL_MAX / +-FLT_MAX huge finite values); "
+               "the optional NMTOOLS_ISCLOSE_NAN_HANDLING / _INF_HANDLING (off by default) are not modelled",
                "a general tuple against a fixed-size integer container is not modelled (never generated)"]
 
 _here = os.path.dirname(os.path.abspath(__file__))
@@ -179,6 +185,50 @@ def gen_cases(rng, tier):
                         d4 = [4 * v for v in dt]
                         add("idx-vs-array", "cl_ia S:%s %s %s I:2" % (k, L(x), A(shp, d4)))
                         add("idx-vs-array", "cl_ai S:%s %s %s I:2" % (k, A(shp, d4), L(x)))
+    # ---- non-finite and extreme floating elements (isclose): NaN, +-inf, -0.0, a denormal, +-DBL_MAX, +-FLT_MAX at every
+    # position, in either operand or both, double and float arrays, through every operand form.  A NaN or infinite difference
+    # is not below eps (the documented default: NMTOOLS_ISCLOSE_NAN_HANDLING / _INF_HANDLING off).
+    NAN, PINF, NINF, NZERO, DENORM, MAX, NMAX, FMAX, NFMAX = range(9000001, 9000010)
+    specials = [NAN, PINF, NINF, NZERO, DENORM, MAX, NMAX, FMAX, NFMAX]
+    partners = {NAN: [NAN, PINF, 8], PINF: [PINF, NINF, MAX], NINF: [NINF, NMAX], NZERO: [0, DENORM], DENORM: [0, 4], MAX: [MAX, NMAX, FMAX],
+                NMAX: [NMAX], FMAX: [FMAX, NFMAX], NFMAX: [NFMAX]}
+    def fl(add_to, form, args, e): add(add_to, "cl_%s %s I:%d" % (form, " ".join(args), e))
+    nf_shapes = [sh for sh in shapes if len(sh) <= 2] + rng.sample([sh for sh in shapes if len(sh) == 3], 6 if tier == "quick" else 27)
+    for a in nf_shapes:
+        base = [4 * (i + 1) for i in range(prod(a))]
+        for pos in range(len(base)):
+            for sp in specials:
+                x = list(base); x[pos] = sp
+                dbl_only = sp in (MAX, NMAX)                       # not representable in a float array
+                kinds = ["dyn", "ref", "col", "rsh"] + ([] if dbl_only else ["dynf", "dynf"])
+                ka, kb = rng.choice(kinds), rng.choice(kinds)
+                e = rng.choice([2, 3])
+                fl("nonfinite", "aa", ["S:" + ka, "S:" + kb, A(a, x), A(a, base)], e)       # special in the first operand only
+                fl("nonfinite", "aa", ["S:" + kb, "S:" + ka, A(a, base), A(a, x)], e)       # ... in the second only
+                for q in partners[sp]:
+                    if q in (MAX, NMAX) and "dynf" in (ka, kb): ka = kb = "dyn"
+                    y = list(base); y[pos] = q
+                    fl("nonfinite", "aa", ["S:" + ka, "S:" + kb, A(a, x), A(a, y)], e)   # both operands special at the same position
+    for sp in specials:
+        for q in specials + [0, 8]:
+            if q in (MAX, NMAX): continue                                                  # the second scalar is a float
+            fl("nonfinite", "nn", ["I:%d" % sp, "I:%d" % q], 2)
+            if sp not in (MAX, NMAX): fl("nonfinite", "nn", ["I:%d" % q, "I:%d" % sp], 2)
+    nfpool = [A((2, 2), [4, sp, 12, 16]) for sp in specials] + [A((2, 2), [4, 8, 12, 16]), A((1,), [NAN]), A((1,), [PINF]), A((1,), [8])]
+    for _ in range(500 if tier == "quick" else 5000):
+        x, y = rng.choice(nfpool), rng.choice(nfpool)
+        if rng.random() < 0.4: y = x
+        form = rng.choice(["mm", "ma", "am", "ee", "ea", "ae", "tt", "tm"])
+        e = rng.choice([1, 2, 3])
+        if form == "tt": fl("nonfinite", "tt" + lay(), [x, rng.choice(nfpool), y, rng.choice(nfpool)], e)
+        elif form == "tm": fl("nonfinite", "tm" + lay(), [x, "I:%d" % rng.choice([8, NAN, PINF]), y, "I:%d" % rng.choice([8, NAN, PINF])], e)
+        else: fl("nonfinite", form + lay(), [x, y], e)
+    for sp in specials:
+        if sp in (MAX, NMAX): continue
+        for q in (sp, 8):
+            fl("nonfinite", "en", ["I:%d" % sp, "I:%d" % q], 3); fl("nonfinite", "ne", ["I:%d" % q, "I:%d" % sp], 3)
+            fl("nonfinite", "ee", ["I:%d" % sp, "I:%d" % q], 3)
+            add("nonfinite", "acl_mm %s %s I:1" % (A((1,), [sp]), A((1,), [q])))
     # ---- integer element types of different width / signedness: values that differ by a multiple of 2^8, 2^16, 2^32
     for ta in INT_TYPES:
         for tb in INT_TYPES:
